@@ -138,13 +138,15 @@ mod icu_locid_stub {
 // C20
 // ---------------------------------------------------------------------------------------------
 
-const FAMILIES: [&str; 7] = ["plural", "number", "currency", "date", "time", "datetime", "list"];
+const FAMILIES: [&str; 8] = ["plural", "plural_plain", "number", "currency", "date", "time", "datetime", "list"];
 const PLACEMENTS: [&str; 9] = ["none", "default-top", "nondefault-only", "subkey-depth2", "range-branch", "plural-form", "fk-target", "second-namespace", "surplus-only"];
 
 fn user_value(family: &str, tag: &str) -> Vec<(String, Val)> {
     // entries (key names use base `K`)
     match family {
         "plural" => vec![("K_one".into(), s(vec![text(&format!("[{tag}.one]")), var("count")])), ("K_other".into(), s(vec![text(&format!("[{tag}.other]")), var("count")]))],
+        // a plural whose forms hold no variable at all
+        "plural_plain" => vec![("K_one".into(), st(&format!("[{tag}.one]"))), ("K_other".into(), st(&format!("[{tag}.other]")))],
         "number" => vec![("K".into(), s(vec![text(&format!("[{tag}]")), var_fmt("v", " number")]))],
         "currency" => vec![("K".into(), s(vec![text(&format!("[{tag}]")), var_fmt("v", " currency(width: narrow; currency_code: EUR)")]))],
         "date" => vec![("K".into(), s(vec![text(&format!("[{tag}]")), var_fmt("v", " date(date_length: long)")]))],
@@ -195,7 +197,7 @@ fn place(p: &mut BTreeMap<FileKey, Vec<(String, Val)>>, family: &str, placement:
             add(&ns1, "fr", vec![(format!("{name}g"), Val::Null)]);
         }
         "range-branch" => {
-            if family == "plural" {
+            if family.starts_with("plural") {
                 // a plural cannot live inside a range branch: reference it from there
                 add(&ns1, "en", rename(user_value(family, &format!("en.{name}")), &format!("{name}p")));
                 add(&ns1, "fr", vec![(format!("{name}p"), Val::Null)]);
@@ -223,7 +225,7 @@ fn place(p: &mut BTreeMap<FileKey, Vec<(String, Val)>>, family: &str, placement:
             }
         }
         "plural-form" => {
-            if family == "plural" {
+            if family.starts_with("plural") {
                 add(&ns1, "en", rename(user_value(family, &format!("en.{name}")), name));
                 add(&ns1, "fr", vec![(name.to_string(), Val::Null)]);
             } else {
@@ -366,7 +368,7 @@ fn c20(tier: Tier) -> i32 {
     // one variable carrying formatters of several families: every ordered choice of 1..=3 (thorough: every
     // permutation of every subset) of the 6 formatter families x 4 ways of spreading them over the locales
     {
-        let fams: Vec<&'static str> = FAMILIES.iter().copied().filter(|f| *f != "plural").collect();
+        let fams: Vec<&'static str> = FAMILIES.iter().copied().filter(|f| !f.starts_with("plural")).collect();
         let mut seqs: Vec<Vec<&'static str>> = vec![];
         for mask in vmodel::enumerate::subsets(fams.len()) {
             let members: Vec<&'static str> = (0..fams.len()).filter(|i| mask >> i & 1 == 1).map(|i| fams[i]).collect();
